@@ -42,7 +42,7 @@ def run_whip(argv):
 
 def run_scenario(chk, sc, cfgseed, dtype, axes, flavour="sched", workers=None):
     rng = random.Random(cfgseed)
-    cfg_ = gamma.Config.draw(rng, ndims=3, payload="tame")
+    cfg_ = gamma.Config.draw(rng, ndims=3, payload="tame", numfmt="g6" if cfgseed % 4 == 0 else "repr")
     lat = lattice.Lattice(sc["mesh"], sc["n1"], sc["n2"], axes=axes, ext0=[3, 4, 2, 5][cfgseed % 4], ext_cut=(cfgseed // 4) % 3 != 0)
     nfiles = sc["nfiles"]
     # boxes dealt over the files round-robin, from the first file or from the last one: with an uneven deal the files with
